@@ -583,12 +583,21 @@ where
         }
     };
     let ninv = modinv(n as u128 % p, p);
-    let routines = ["ntt", "ntt_set_s", "ntt_inv"];
+    // the allocating variants validate the size on their own before delegating: same oracle
+    let routines = ["ntt", "ntt_set_s", "ntt_inv", "get_ntt", "get_ntt_inv"];
     let sink = Sink::new();
     let calls = AtomicU64::new(0);
     pfor(true, (vecs.len() * routines.len()) as u64, 1, |t| {
         let (vi, ri) = (t as usize / routines.len(), t as usize % routines.len());
-        let r = routines[ri];
+        let r0 = routines[ri];
+        let r = match r0 {
+            "get_ntt" => "ntt",
+            "get_ntt_inv" => "ntt_inv",
+            x => x,
+        };
+        if dead.is(r0) {
+            return;
+        }
         if dead.is(r) || (r == "ntt_set_s" && !has_s) {
             return;
         }
@@ -606,16 +615,22 @@ where
             _ => unreachable!(),
         };
         let mut out = vec![F::fe(3 % p); n];
-        let res = match r {
+        let res = match r0 {
             "ntt" => must_ok(catch(|| hp::ntt(&mut out, &inp, n))),
             "ntt_set_s" => must_ok(catch(|| hp::ntt_set_s(&mut out, &inp, n))),
-            _ => must_ok(catch(|| hp::ntt_inv(&mut out, &inp, n))),
+            "ntt_inv" => must_ok(catch(|| hp::ntt_inv(&mut out, &inp, n))),
+            "get_ntt" => must_ok(catch(|| hp::get_ntt(&inp, n))).map(|v| out = v),
+            _ => must_ok(catch(|| hp::get_ntt_inv(&inp, n))).map(|v| out = v),
         };
         calls.fetch_add(1, Ordering::Relaxed);
-        let key = format!("{r}/{name}/size={n}/vec={vname}");
-        let case = json!({"field": name, "routine": r, "size": n, "input": vname, "input_len": inp.len()});
+        let key = format!("{r0}/{name}/size={n}/vec={vname}");
+        let case = json!({"field": name, "routine": r0, "size": n, "input": vname, "input_len": inp.len()});
         if let Err(m) = res {
-            sink.push(r, vi as u64, key, format!("{name}: {r}(size=2^{l}, {vname}) {m}"), case);
+            sink.push(r0, vi as u64, key, format!("{name}: {r0}(size=2^{l}, {vname}) {m}"), case);
+            return;
+        }
+        if out.len() != n {
+            sink.push(r0, vi as u64, key, format!("{name}: {r0}(size=2^{l}, {vname}) returned {} elements", out.len()), case);
             return;
         }
         let bad: Option<(usize, u128, String)> = match (r, j) {
@@ -637,7 +652,7 @@ where
             _ => unreachable!(),
         };
         if let Some((i, g, w)) = bad {
-            sink.push(r, vi as u64, key, format!("{name}: {r}(size=2^{l}, {vname})[{i}] = {g}, expected {w}"), case);
+            sink.push(r0, vi as u64, key, format!("{name}: {r0}(size=2^{l}, {vname})[{i}] = {g}, expected {w}"), case);
         }
     });
     let c = calls.load(Ordering::Relaxed);
